@@ -36,14 +36,14 @@ def P(pid, targets, bounded, text, note=None, level="proof", unverified=()):
 
 
 P("C01", [f"{UT}:rlencode", f"{CR}:index_pixels", f"{CR}:create_cooler", f"{CR}:create", f"{CR}:write_pixels", f"{TOP}:get",
-          f"{API}:pixels", f"{API}:Cooler.pixels", f"{CR}:create_from_unordered"], "bounded/C01.py",
+          f"{API}:pixels", f"{API}:Cooler.pixels", f"{CR}:create_from_unordered", f"{ING}:ArrayLoader.__iter__"], "bounded/C01.py",
   "Proof core shared with C02 (index construction for every pixel column and chunking). create() itself is verified as a coordinator over a ghost operation log (every helper and h5py call replaced by a recording stub; 41 configurations of mode/append/root-or-nested target/check flags/input forms/single-cell append, symbolic paths, counts and symmetric flag): the caller's "
   "pixels are what is validated and streamed, once, into <group>/pixels; the callers' bins are what is written; columns "
   "are the ids followed by the requested value columns with the caller's dtypes overriding the defaults; assembly and "
   "metadata reach the info record verbatim. The write/read round trip through real HDF5 files is covered by the "
-  "bounded tier (all small matrices x input forms x dtypes x metadata documents). write_pixels (the append loop every producer goes through) is verified with ghost dataset contents for EVERY number of chunks and chunk lengths: each pixel column ends up as the concatenation of that column over the chunks in order, its length is the returned nnz (pre-allocated rows dropped when nothing arrived), the returned total is the sum of the count column (integer and float configurations), only the target group of the target file is touched, always opened r+. The read side: Cooler.pixels() is a selector over nnz rows whose slicer performs one read of the collection's own pixels group with the caller's bounds, fields and join flag; api.pixels reads exactly rows [lo, hi) of the requested columns (default: ids first, then every stored value column once) and, when joining, annotates them with the whole bin table (coordinators; get has its own contract).",
+  "bounded tier (all small matrices x input forms x dtypes x metadata documents). write_pixels (the append loop every producer goes through) is verified with ghost dataset contents for EVERY number of chunks and chunk lengths: each pixel column ends up as the concatenation of that column over the chunks in order, its length is the returned nnz (pre-allocated rows dropped when nothing arrived), the returned total is the sum of the count column (integer and float configurations), only the target group of the target file is touched, always opened r+. The read side: Cooler.pixels() is a selector over nnz rows whose slicer performs one read of the collection's own pixels group with the caller's bounds, fields and join flag; api.pixels reads exactly rows [lo, hi) of the requested columns (default: ids first, then every stored value column once) and, when joining, annotates them with the whole bin table (coordinators; get has its own contract). The dense-array loader (ArrayLoader.__iter__) is verified for every matrix size, content and chunk size: one chunk per row span of util.partition, listing exactly the non-zero upper-triangle cells of its rows, each once, in row-major order, with its value.",
   unverified=["write_bins / write_chroms / write_info bodies (HDF5 I/O; stubs in the create contract)",
-              "ArrayLoader.__iter__", "pandas sort_values (assumed: sorts by both keys)"],
+              "numpy.nonzero on a 2-D block (assumed by the ArrayLoader contract: exactly the non-zero cells, row-major)", "pandas sort_values (assumed: sorts by both keys)"],
   level="other")
 
 P("C02", [f"{UT}:rlencode", f"{CR}:index_pixels", f"{CR}:index_bins", f"{CR}:create_cooler", f"{CR}:create", f"{CR}:write_pixels"], "bounded/C02.py",
@@ -83,20 +83,20 @@ P("C04", [f"{RQ}:_region_to_extent", f"{RQ}:region_to_extent", f"{RQ}:region_to_
        "Cooler invariant (cached ids/lengths agree with the stored table, recorded bin size truthful) is a precondition.",
   unverified=["GenomeSegmentation.fetch / bedslice", "open_hdf5 (assumed: yields the file handle; h5[root] is the collection's group)"])
 
-P("C05", [f"{ING}:_sanitize_pixels", f"{UT}:get_binsize", "cooler.cli.load:load", "cooler.cli.cload:pairs"], "bounded/C05.py",
+P("C05", [f"{ING}:_sanitize_pixels", f"{ING}:aggregate_records", f"{UT}:get_binsize", "cooler.cli.load:load", "cooler.cli.cload:pairs"], "bounded/C05.py",
   "Proof core: the pre-binned-record sanitizer is verified per record for all chunks: one-based shift by exactly one, "
   "mirroring of lower-triangle records together with their sided fields, drop keeps exactly the upper records in order, "
-  "raise refuses exactly when a lower-triangle record exists. The loaders' glue (cli.load, cli.cload pairs) is under coordinator contracts: which file column feeds which field, which sanitizer with which one-based / triangle handling, every chunk through it (shared with C16). The genomic-record sanitizer (_sanitize_records: bin "
+  "raise refuses exactly when a lower-triangle record exists. The loaders' glue (cli.load, cli.cload pairs) is under coordinator contracts: which file column feeds which field, which sanitizer with which one-based / triangle handling, every chunk through it (shared with C16). aggregate_records (coordinator): records are grouped by both bin ids and each pixel's count is the SIZE of its group - every retained record counted exactly once - unless the caller aggregates a count column itself. The genomic-record sanitizer (_sanitize_records: bin "
   "assignment) is covered by the bounded tier only (records on every bin edge through API, load, cload pairs, cload tabix).", level="other",
-  unverified=["_sanitize_records (bin assignment)", "aggregate_records", "TabixAggregator.aggregate"])
+  unverified=["_sanitize_records (bin assignment)", "pandas groupby(...).aggregate('size') (assumed by the aggregate_records stub: size = number of rows of the group)", "TabixAggregator.aggregate"])
 
 P("C06", [f"{RED}:merge_breakpoints", f"{RED}:CoolerMerger.__iter__", f"{CR}:create_from_unordered"], "bounded/C06.py",
   "Proof core: the merge-epoch partition (merge_breakpoints: bisect loop with invariant and variant, for k = 1,2,3 input indexes and every buffer size) ends exactly where every input is exhausted and is strictly increasing. Bounded stand-in for the rest (all small record multisets x partitions x orders x mergebuf x max_merge). The merge loop itself (CoolerMerger.__iter__, k = 1,2,3 inputs, merge_breakpoints applied by contract) is verified with the invariant starts[i] == index_i[P[t]]: each epoch reads from every input exactly the slice between two consecutive boundaries - cut only at row offsets, so a bin1 row is never split - every input with records in an epoch is read in it exactly once, inputs contribute in order, the epoch is the sorted groupby(bin1_id, bin2_id).aggregate(agg) of their concatenation, and at the end every input is read to its nnz: every input record is read exactly once for every buffer size. create_from_unordered itself (the external sort) is verified for EVERY number of chunks n, max_merge and buffer size with two loop invariants over structured ghost lists: the i-th chunk - and nothing else - is written in append mode to temporary collection i; when a first merge level is built its j-th group merges exactly the sort-pass collections edges[j]..edges[j+1]-1 in order, where edges runs from 0 to n without going back (the groups tile the chunks: none lost, none twice); ONE final merger over all collections of the last level, in order, with the caller's buffer and columns, is streamed into the caller's URI with the caller's mode; temporary files are created delete-on-close. An undecided or refuted clause is replayed by running the real function on real files over a family of chunk counts x max_merge against the in-memory aggregate.",
   level="other", unverified=["pandas concat / groupby / aggregate (assumed by the merge-loop stubs)", "tempfile.NamedTemporaryFile deletion at garbage collection (bounded: directory listing after runs)", "numpy.linspace(dtype=int) (assumed: first = 0, last = n, non-decreasing)"])
 
 P("C07", [f"{RED}:merge_breakpoints", f"{RED}:CoolerMerger.__init__", f"{RED}:CoolerMerger.__iter__", f"{RED}:merge_coolers",
-          f"{UT}:get_binsize", f"{ING}:_validate_pixels", f"{CR}:write_pixels"], "bounded/C07.py",
-  "Proof core: merge_breakpoints (shared with C06); write_pixels (the append loop the merged stream goes through) is verified with ghost dataset contents for EVERY number of chunks and chunk lengths: each pixel column is the concatenation of the chunks in order, its length is the returned nnz, the returned total is the sum of the count column in the integer AND the float configuration (no truncation of float sums); the store converts integer values to the column type (a value that does not fit is stored as something else) and the proof that each column is nevertheless the EXACT concatenation goes through only because every value is range-checked, unconverted, against the target column's dtype first - ValueError only when a value really does not fit (a stored value is never silently different from the exact aggregate). The merge loop itself (CoolerMerger.__iter__, k = 1,2,3 inputs, merge_breakpoints applied by contract) is verified with the invariant starts[i] == index_i[P[t]]: each epoch reads from every input exactly the slice between two consecutive boundaries - cut only at row offsets, so a bin1 row is never split - every input with records in an epoch is read in it exactly once, inputs contribute in order, the epoch is the sorted groupby(bin1_id, bin2_id).aggregate(agg) of their concatenation, and at the end every input is read to its nnz: every input record is read exactly once for every buffer size. CoolerMerger.__init__ accepts the inputs iff they share the bin table (fixed size: same size and same chromosome names AND lengths as the first input; variable: same table row for row), and merge_coolers (k = 2,3) puts all inputs in order into one merger with the caller's buffer/columns/agg, creates the output from the first input's bins and assembly with that merger as stream, is symmetric iff all inputs are (mixed refused), requires every requested column in every input and gives it the caller's dtype or numpy.result_type over ALL inputs. Bounded stand-in for the rest (all small input families x mergebuf x orders x nestings x dtype limits).",
+          f"{UT}:get_binsize", f"{ING}:_validate_pixels", f"{CR}:write_pixels", f"{CR}:_check_fits_dtype"], "bounded/C07.py",
+  "Proof core: merge_breakpoints (shared with C06); write_pixels (the append loop the merged stream goes through) is verified with ghost dataset contents for EVERY number of chunks and chunk lengths: each pixel column is the concatenation of the chunks in order, its length is the returned nnz, the returned total is the sum of the count column in the integer AND the float configuration (no truncation of float sums); the store converts integer values to the column type (a value that does not fit is stored as something else) and the proof that each column is nevertheless the EXACT concatenation goes through only because every value is range-checked, unconverted, against the target column's dtype first - ValueError only when a value really does not fit (a stored value is never silently different from the exact aggregate). The range check itself (_check_fits_dtype) is verified on its real body: ValueError exactly when some integer value lies outside the limits of the integer dtype it is given. The merge loop itself (CoolerMerger.__iter__, k = 1,2,3 inputs, merge_breakpoints applied by contract) is verified with the invariant starts[i] == index_i[P[t]]: each epoch reads from every input exactly the slice between two consecutive boundaries - cut only at row offsets, so a bin1 row is never split - every input with records in an epoch is read in it exactly once, inputs contribute in order, the epoch is the sorted groupby(bin1_id, bin2_id).aggregate(agg) of their concatenation, and at the end every input is read to its nnz: every input record is read exactly once for every buffer size. CoolerMerger.__init__ accepts the inputs iff they share the bin table (fixed size: same size and same chromosome names AND lengths as the first input; variable: same table row for row), and merge_coolers (k = 2,3) puts all inputs in order into one merger with the caller's buffer/columns/agg, creates the output from the first input's bins and assembly with that merger as stream, is symmetric iff all inputs are (mixed refused), requires every requested column in every input and gives it the caller's dtype or numpy.result_type over ALL inputs. Bounded stand-in for the rest (all small input families x mergebuf x orders x nestings x dtype limits).",
   level="other", unverified=["pandas concat / groupby-sum, table equality, numpy.result_type (assumed by the stubs)", "integer overflow inside pandas group-by sum (known finding)"])
 
 P("C08", [f"{RED}:_greedy_prune_partition", f"{RED}:CoolerCoarsener.__init__", f"{RED}:CoolerCoarsener._aggregate", f"{RED}:CoolerCoarsener.__iter__", f"{RED}:coarsen_cooler", f"{UT}:get_binsize"], "bounded/C08.py",
